@@ -435,16 +435,42 @@ func c13optionsFirst(c *Ctx) {
 	if f == nil {
 		return
 	}
+	// the fields an option can set: every field stored through the parameter of a func(*Subscriber) of the package
+	optionFields := map[string]bool{}
+	for _, g := range c.P.AllFuncs(pkg) {
+		if g.Signature.Params().Len() != 1 || g.Signature.Results().Len() != 0 || !strings.HasSuffix(typeString(g.Signature.Params().At(0).Type()), "discov.Subscriber") || len(g.Params) == 0 {
+			continue
+		}
+		for _, b := range g.Blocks {
+			for _, ins := range b.Instrs {
+				if st, ok := ins.(*ssa.Store); ok {
+					if fa, ok := st.Addr.(*ssa.FieldAddr); ok && fa.X == ssa.Value(g.Params[len(g.Params)-1]) {
+						if pt, ok := fa.X.Type().Underlying().(*types.Pointer); ok {
+							if stt, ok := pt.Elem().Underlying().(*types.Struct); ok {
+								optionFields[stt.Field(fa.Field).Name()] = true
+							}
+						}
+					}
+				}
+			}
+		}
+	}
+	if len(optionFields) == 0 {
+		c.R.Undecided(rule, pkg+".NewSubscriber#option-fields", "the fields the option functions set are recognised", "none found")
+		return
+	}
 	ps := c.paths(rule, f, px.Config{MaxVisits: 2})
 	applied := 0
-	c.forall(rule, pkg+".NewSubscriber#options-first", "no field of the Subscriber under construction is read before the last option function was applied to it (the container and the Monitor arguments are derived from the configured object)", f, ps, func(p *px.Path) (bool, string) {
+	c.forall(rule, pkg+".NewSubscriber#options-first", "no field of the Subscriber under construction that an option can set is read before the last option function was applied to it (the container and the Monitor arguments are derived from the configured object)", f, ps, func(p *px.Path) (bool, string) {
 		var firstRead *px.Event
 		for i := range p.Events {
 			e := &p.Events[i]
 			switch {
 			case e.Kind == px.EvLoad && e.Addr != nil && e.Addr.Kind == px.KFieldAddr:
 				if b := e.Addr.X.Strip(false); b != nil && b.Kind == px.KAlloc && strings.HasSuffix(typeString(b.Typ), "discov.Subscriber") && firstRead == nil {
-					firstRead = e
+					if _, fname, _ := e.Addr.FieldAddrOf(); optionFields[fname] {
+						firstRead = e
+					}
 				}
 			case e.Kind == px.EvCall && e.Call != nil && e.Call.FnSym != nil:
 				takes := false
